@@ -2526,6 +2526,20 @@ impl InferContext {
             Expr::Assign(assignee, expr) => {
                 match assignee.to_expr() {
                     Expr::Var(name) => {
+                        // builtins, external functions and type names are bound as Persistent:
+                        // they are not variables and cannot be assigned
+                        use crate::utils::environment::LookupRes;
+                        if matches!(
+                            self.env.lookup_cls(&name),
+                            LookupRes::Local((_, EvalStage::Persistent))
+                                | LookupRes::UpValue(_, (_, EvalStage::Persistent))
+                                | LookupRes::Global((_, EvalStage::Persistent))
+                        ) {
+                            return Err(vec![Error::VariableNotFound(
+                                "invalid_assignment_target".to_symbol(),
+                                loc.clone(),
+                            )]);
+                        }
                         let assignee_t =
                             self.unwrap_result(self.lookup(name, loc).map_err(|e| vec![e]));
                         let e_t = self.infer_type_unwrapping(*expr);
